@@ -85,14 +85,11 @@ func vfH_tokenlist_diff() {
 	var lines []string
 	if mode == 0 {
 		// arbitrary bytes
-		N := 4
-		if tier >= 1 {
-			N = 6
-		}
+		N := vfParam("N", 4+tier)
 		n := vfChoose(N + 1)
 		lines = []string{vfString(n)}
-		if tier >= 1 && vfChoose(2) == 1 {
-			lines = append(lines, vfString(vfChoose(3)))
+		if l2 := vfParam("L2", 2*tier); l2 > 0 && vfChoose(2) == 1 {
+			lines = append(lines, vfString(vfChoose(l2+1)))
 		}
 	} else {
 		// grammar templates: elements joined by OWS "," OWS with symbolic OWS and case
